@@ -52,7 +52,8 @@ class AbstractValueWithQuantityObject:
             assert unit is None, "If quantity is given, the unit must not!"
 
             if value is None:
-                value = self._GetDefaultValue(quantity.GetCategoryInfo())
+                # the category's default value is expressed in its default unit
+                value = self._GetDefaultValue(quantity.GetCategoryInfo(), quantity.GetUnit())
 
         else:
             if not isinstance(category, str):
